@@ -3,7 +3,8 @@ import re
 from ..mir import call_matches, callee_name, op_local
 from ..flow import expr, resolve_place
 from .. import oblrules
-from .c07 import inlined_private, expanded_copies, PathEval, implied, split_call, sub_terms
+from .c07 import inlined_private, expanded_copies, PathEval, implied, split_call, sub_terms, callee_names
+from .. import obligations as _obl0
 
 CLAIM = {
     "text": "Structural and numeric clauses of C10 decided on MIR: the size reported by every view named in the statement flows from "
@@ -508,21 +509,47 @@ def run(ctx):
         else:
             ctx.violation("FLEX-SHAPE", fl.path, "share", "the flex share is not round(major_remain * flex / flex_total) computed before flex_total is reduced, or the child constraint is not (0, share)", sites=[fl.loc])
 
-    # DIV-GUARD: round_up divisor
+    # DIV-GUARD: the divisions size_cells performs (in its own body or in whatever private helper computes the rounded-up quotient:
+    # the helper is found by expanding size_cells' private callees, not by its name)
     ctx.rule("DIV-GUARD", "Image::size_cells returns early when pixels_per_cell.is_empty(); Size::is_empty is height == 0 || width == 0", floor=2)
     szc = prog.body("image::Image::size_cells")
     ise = prog.body("terminal::Size::is_empty")
     okd = False
+    div_lemmas = {}
     if szc is not None and ise is not None:
-        ru = [(bb, t) for bb, t in szc.calls() if call_matches(t, r"size_cells::round_up$")]
-        pe = PathEval(szc)
-        # every way to a round_up(_, d) call knows `!pixels_per_cell.is_empty()` (early return, if/else, match, negated test ..) or d != 0 itself
-        by_pred = bool(ru) and all(pe.always(bb, lambda x, rel, y: rel == "is" and y == "false" and x == "Size::is_empty(arg2)") for bb, t in ru)
-        direct = bool(ru) and all(pe.always(bb, lambda x, rel, y, d=expr(szc, t["args"][1]): (rel == "!=" and {x, y} == {"0", d}) or (rel == "<" and x == "0" and y == d)) for bb, t in ru)
-        ok1 = (by_pred or direct) and all(re.match(r"^arg2\.(height|width)$", expr(szc, t["args"][1])) for bb, t in ru)
-        # is_empty: both comparisons with 0 and result true if either is 0
-        eqs = sorted("==".join(sorted((expr(ise, s_["rv"]["a"]), expr(ise, s_["rv"]["b"])), reverse=True)) for i, si, s_ in ise.assigns() if s_["rv"]["k"] == "bin" and s_["rv"]["op"] == "Eq")
+        isz = inlined_private(prog, szc.path) or szc
+        _DIVCALL = r"^(?:core|std)::num::<impl (?:usize|u8|u16|u32|u64|u128)>::(div_ceil|div_euclid|rem_euclid)$"
+        # division sites: (block, origin body path, divisor operand, obligation kind prefix)
+        sites = []
+        for i, si, s_ in isz.assigns():
+            if isz.blocks[i]["cleanup"]:
+                continue
+            if s_["rv"]["k"] == "bin" and s_["rv"]["op"] in ("Div", "Rem") and s_["rv"]["b"]["k"] != "const" and not _float_op(isz, s_["rv"]["b"]):
+                sites.append((i, isz.blocks[i].get("inl_from") or szc.path, s_["rv"]["b"], "DIV0"))
+        for bb, t in isz.calls():
+            m_ = None
+            for n_ in callee_names(t):
+                m_ = m_ or re.match(_DIVCALL, n_)
+            if m_ and len(t["args"]) == 2 and not isz.blocks[bb]["cleanup"]:
+                sites.append((bb, isz.blocks[bb].get("inl_from") or szc.path, t["args"][1], "OVF-int-" + m_.group(1)))
+        pe = PathEval(isz)
+        res = pe.at({bb for bb, o_, d_, k_ in sites}) if sites else {}
+        # every way to a division by d knows d != 0 itself, or `!S.is_empty()` for the Size S that d is a component of
+        # (early return, if/else, match, negated test ..)
+        by_pred_used = False
+        ok1 = bool(sites) and res is not None
+        for bb, o_, d_, k_ in sites if ok1 else []:
+            ps = res.get(bb) or []
+            for facts, env in ps:
+                d = pe.term(env, d_)
+                direct = any((rel == "!=" and {x, y} == {"0", d}) or (rel == "<" and x == "0" and y == d) or (rel == "<=" and x == "1" and y == d) for (x, rel, y) in facts)
+                mc = re.match(r"^(.*)\.(height|width)$", d or "")
+                pred = mc is not None and any(rel == "is" and y == "false" and x == "Size::is_empty(%s)" % mc.group(1) for (x, rel, y) in facts)
+                by_pred_used = by_pred_used or (pred and not direct)
+                if not (direct or pred):
+                    ok1 = False
         # meaning of is_empty: whenever it returns false, height != 0 and width != 0 (|| or &-negations, match, h * w == 0 ..)
+        eqs = sorted("==".join(sorted((expr(ise, s_["rv"]["a"]), expr(ise, s_["rv"]["b"])), reverse=True)) for i, si, s_ in ise.assigns() if s_["rv"]["k"] == "bin" and s_["rv"]["op"] == "Eq")
         ipe = PathEval(ise)
         ok2 = True
         n_ret = 0
@@ -536,14 +563,31 @@ def run(ctx):
                 nz = lambda d: ("0", "!=", d) in f2 or ("0", "<", d) in f2
                 if not ((nz("arg1.height") and nz("arg1.width")) or nz("Mul(arg1.height, arg1.width)") or nz("Mul(arg1.width, arg1.height)")):
                     ok2 = False
-        ok2 = direct or (ok2 and n_ret > 0)
-        ctx.instance("DIV-GUARD", {"round_up_calls_guarded_by_not_is_empty": ok1})
+        ok2 = (ok1 and not by_pred_used) or (ok2 and n_ret > 0)
+        # a helper's obligations are justified here only when every call site of the helper is one of the expanded copies just examined
+        origins = sorted({(o_, k_) for bb, o_, d_, k_ in sites})
+        for o_, k_ in origins:
+            if o_ != szc.path:
+                cps = expanded_copies(prog, o_)
+                if not cps or any(c.path != szc.path for c in cps):
+                    ok1 = False
+        ctx.instance("DIV-GUARD", {"divisions": len(sites), "in": sorted({o_ for o_, k_ in origins}), "guarded_by_not_is_empty_or_nonzero": ok1})
         ctx.instance("DIV-GUARD", {"is_empty_tests": eqs, "ok": ok2})
         okd = ok1 and ok2
-    if okd:
-        lemmas[("image::Image::size_cells::round_up", "DIV0")] = ("DIV-GUARD", "round_up is only called with a component of pixels_per_cell after `pixels_per_cell.is_empty()` returned false")
-    else:
-        ctx.violation("DIV-GUARD", "image::Image::size_cells", "guard", "round_up's divisor is not guarded by the is_empty() early return", sites=[])
+        if okd:
+            why = ("DIV-GUARD", "size_cells divides only by a component of pixels_per_cell after `pixels_per_cell.is_empty()` returned false (or after a test of the divisor itself)")
+            for o_, k_ in origins:
+                if k_ == "DIV0":
+                    lemmas[(o_, "DIV0")] = why
+                else:
+                    ob_ = prog.body(o_)
+                    obs_ = [o for o in _obl0.collect(ob_, lossy=False, unsafe=True) if not o.exp] if ob_ is not None else []
+                    for o in obs_:
+                        sk_ = oblrules.site_keys(obs_)[id(o)]
+                        if sk_.startswith(k_ + "-"):
+                            lemmas[(o_, sk_)] = why
+    if not okd:
+        ctx.violation("DIV-GUARD", "image::Image::size_cells", "guard", "a division in size_cells (or its rounding helper) is not guarded by the is_empty() early return", sites=[])
 
     hit_test(ctx)
     child_pairing(ctx)
@@ -609,6 +653,17 @@ def _user_param(body, operand):
         return True
     # the size of a cell is the size its glyph declares (Glyph::size is a constructor / JSON parameter)
     return bool(re.search(r"Cell::size\(|Glyph::size\(", e))
+
+
+def _float_op(body, op):
+    """is the operand a float (float division never panics)"""
+    if op["k"] == "const":
+        return op["c"]["ty"] in ("f32", "f64")
+    ty = body.local_ty(op["place"]["l"])
+    for e in op["place"]["p"]:
+        if e["k"] == "field":
+            ty = e["ty"]
+    return ty in ("f32", "f64")
 
 
 def _usize_op(body, o):
